@@ -1,6 +1,7 @@
 """C09 - a discretised distribution is always a valid partition of its continuous parent.
 Design model: spec/Discretised/Discretised.tla (+ DiscObs = the property on one observation);
 binding: harness/drv_discrete.cpp traces validated by DiscretisedTrace.tla."""
+import glob
 import json
 import os
 import vcommon as vc
@@ -40,6 +41,16 @@ def _validate(ck, trace, tag="t"):
     return rej
 
 
+def _cleanup():
+    """TLC writes <Module>_TTrace_* files next to the module whenever it reports a violation (the rejected
+    design variants, the probes of the known findings): remove them."""
+    for p in glob.glob(os.path.join(SPEC, "*_TTrace_*")):
+        try:
+            os.remove(p)
+        except OSError:
+            pass
+
+
 def _known_ids():
     return [k["id"] for k in vc.load_findings().get("known", []) if k.get("property") == "C09" and k.get("id")]
 
@@ -66,7 +77,7 @@ def run(tier, seed):
     for const, val in VARIANTS:
         vcfg = os.path.join(wd, "variant.cfg")
         _cfg(vcfg, 3, 2, forget=val if const == "Forget" else '"none"', lookup=val if const == "LookupStart" else "0")
-        rv = vc.tlc(SPEC, "Discretised", vcfg, workers=4, timeout=1200)
+        rv = vc.tlc(SPEC, "Discretised", vcfg, workers=4, timeout=1200, extra=("-noGenerateSpecTE",))
         caught["%s=%s" % (const, val.strip('"'))] = rv.invariant
         if not rv.invariant:
             raise vc.MachineryError("design variant %s=%s is not rejected by any invariant: the specification is too weak" % (const, val))
@@ -113,6 +124,7 @@ def run(tier, seed):
                       "harness/drv_discrete.cpp: observation through public const queries only; E1 ranks by exact comparison; E4 = round(x*1e6)",
                       "parent cdf / partial expectation are the object's own pProb / Expectation (their accuracy is C08, not decided here)",
                       "regular range: every continuous (component) parent keeps >= 1% of its mass inside the accepted restrictions"]
+    _cleanup()
     return ck.finish()
 
 
@@ -129,6 +141,7 @@ def _small_samples(tr, k=3):
 
 def replay(path):
     n_ev, rej, st = vc.validate_trace(SPEC, "DiscretisedTrace", os.path.join(SPEC, "DiscretisedTrace.cfg"), path, parallel=1)
+    _cleanup()
     for rj in rej:
         vc.log("VIOLATION property=C09 replay=%s" % path)
         vc.log("  %s at event #%d: %s" % (rj.reason, rj.index, json.dumps(rj.event)[:400]))
